@@ -10,6 +10,10 @@ OWN = {
     "C08": r"^(C08|C01|C02\.wellformed|C02\.kind)",
     "C09": r"^(C09|C01|C02\.wellformed|C02\.kind|C02\.absent)",
     "C10": r"^(C10|C01|C02\.wellformed|C02\.kind|C02\.absent)",
+    "C04": r"^(C02\.ref|C02\.absent|C02\.wellformed|C02\.kind|C01)",
+    "C06": r"^(C06|C02\.(?!dateUnit)|C07\.exact|C08\.exact|C09|C10\.instant|C16\.panic)",
+    "C15": r"^(C15|trace)",
+    "C13": r"^(C13|C02|C01\.encpanic|C01\.encerr)",
 }
 
 
@@ -18,7 +22,7 @@ def owned(prop, rejs):
     return [r for r in rejs if rx.search(r[1])]
 
 
-def codec_stage(run, tmp, hx, known, name, fam, module="TraceCodec"):
+def codec_stage(run, tmp, hx, known, name, fam, module="TraceCodec", selftest=True):
     out = V.os.path.join(tmp, "tr_" + name)
     hxargs = ["codec", "-family", fam]
     V.run_hx(hx, hxargs + ["-seed", str(run.seed), "-tier", run.tier, "-out", out, "-shards", str(V.NCPU)])
@@ -30,7 +34,8 @@ def codec_stage(run, tmp, hx, known, name, fam, module="TraceCodec"):
     v["rejs"] = mine
     run.add_validation(name, v, summary)
     V.judge(run, known, mine, shards, dict(hx=hxargs, seed=run.seed, tier=run.tier, module=module))
-    binding_selftest(run, tmp, shards, module, name, set(r[0] for r in v["rejs"]))
+    if selftest:
+        binding_selftest(run, tmp, shards, module, name, set(r[0] for r in v["rejs"]))
 
 
 def binding_selftest(run, tmp, shards, module, name, already):
@@ -82,14 +87,21 @@ def scalar_mc(run, tmp):
     run.add_mc("MCScalar", r, "every legal form of every int/long/double/date in the stated finite sets decodes to its value; minimal form is minimal; tag partition")
 
 
-def plan_codec(fam, mc=None, note=""):
+def fault_mc(run, tmp):
+    r = V.model_check(tmp, "HFault", "HFault")
+    run.add_mc("HFault", r, "design: every write answer inspected => Surfaces, StopsAfterFault, Terminates for <=12 writes, every fault position")
+    r = V.model_check(tmp, "HFault", "HFault_neg", expect="Surfaces")
+    run.add_mc("HFault_neg", r, "negative configuration (a write result is dropped) violates Surfaces: the invariant is not vacuous")
+
+
+def plan_codec(fam, mc=None, note="", module="TraceCodec", level="model_checking", selftest=True):
     def f(run, tmp):
         known = V.load_known()
         hx = V.build_harness(tmp)
         if mc:
             mc(run, tmp)
-        codec_stage(run, tmp, hx, known, fam, fam)
-        return V.finish(run, "model_checking", note)
+        codec_stage(run, tmp, hx, known, fam, fam, module=module, selftest=selftest)
+        return V.finish(run, level, note)
     return f
 
 
@@ -99,5 +111,9 @@ PLANS = {
     "C07": plan_codec("c07", scalar_mc, "integer round trips validated by TLC: exactness and shortest form per wire kind"),
     "C08": plan_codec("c08", scalar_mc, "double round trips validated by TLC against the octet-level IEEE classification"),
     "C09": plan_codec("c09", None, "string/binary round trips validated by TLC: payload, character counts, chunk boundaries"),
+    "C04": plan_codec("c04", None, "pointer graphs (exhaustive small, random large) encoded and decoded; TLC checks ref ordinals on the wire (Denotes binds node->ordinal) and identity in the decoded graph (canonical numbering equality)"),
+    "C06": plan_codec("c06", None, "multi-value streams through one encoder/decoder and one serializer over a counting reader; TLC threads the stream state (class, type and ref tables) through the whole history: framing offsets, denotation with cross-value refs, order, no carrier"),
+    "C15": plan_codec("c15", fault_mc, "fault enumeration: for each value and writer-taking entry point every Write index k x 4 fault kinds is executed against the real encoder; each run's writer log is replayed by TLC through HFault (FaultSurfaces)", module="TraceFault", level="fault_enumeration", selftest=False),
+    "C13": plan_codec("c13", None, "encode calls on values containing an unsupported kind at every position: TLC requires an error (no panic, no success), and well-formed output for the control values"),
     "C10": plan_codec("c10", scalar_mc, "timestamp round trips validated by TLC at millisecond resolution"),
 }
